@@ -91,8 +91,13 @@ def run_meta(r):
         s_m = cssutils.parseString("b { left: 1px } @media print { a { %s: %s } }" % (name, value))
         s_f = cssutils.parseString("b { left: 1px } @font-face { font-family: x; src: url(x); %s: %s }" % (name, value))
         f_decl = [p for p in s_f.cssRules[1].style.getProperties(all=True) if p.name == css.Property(name, value).name] if s_f.cssRules.length > 1 else []
+        # a declaration that is shadowed by a later one of the same name (or an earlier !important one) still counts
+        s_d = cssutils.parseString("b { left: 1px } @font-face { font-family: x; src: url(x); font-weight: bolder; font-weight: bold; "
+                                   "font-style: italic !important; font-style: slanted; %s: %s }" % (name, value))
+        dup_conj = s_d.cssRules.length > 1 and (bool(s_d.valid) == all(bool(p.valid) for p in s_d.cssRules[1].style.getProperties(all=True))
+                                                 and bool(s_d.cssRules[1].valid) == all(bool(p.valid) for p in s_d.cssRules[1].style.getProperties(all=True)))
         s_p = cssutils.parseString("b { left: 1px } @page { %s: %s }" % (name, value))
-        nested = {"page_sheet": bool(s_p.valid), "media_sheet": bool(s_m.valid), "ff_sheet": bool(s_f.valid), "ff_decl": bool(f_decl[-1].valid) if f_decl else True,
+        nested = {"page_sheet": bool(s_p.valid), "media_sheet": bool(s_m.valid), "ff_sheet": bool(s_f.valid), "ff_decl": bool(f_decl[-1].valid) if f_decl else True, "ff_dup_conj": bool(dup_conj),
                   "ff_others": all(bool(p.valid) for p in s_f.cssRules[1].style.getProperties(all=True) if p not in f_decl) if s_f.cssRules.length > 1 else True}
         sheet = cssutils.parseString("a { %s: %s }" % (name, value))
         rule = sheet.cssRules[0]
@@ -123,7 +128,7 @@ def run_meta(r):
     out, o = outcome(f)
     if out != "ok":
         o = {"out": out, "fontface": [], "fontface_rule_conj": True, "base": False, "spellings": [], "roundtrip": False, "origins": [], "rulevalid": False, "sheetvalid": False,
-             "nested": {"page_sheet": False, "media_sheet": False, "ff_sheet": False, "ff_decl": False, "ff_others": True}, "text_validate_on": "", "text_validate_off": "", "dom_validate_on": [], "dom_validate_off": []}
+             "nested": {"page_sheet": False, "media_sheet": False, "ff_sheet": False, "ff_decl": False, "ff_others": True, "ff_dup_conj": True}, "text_validate_on": "", "text_validate_off": "", "dom_validate_on": [], "dom_validate_off": []}
     return o
 
 
